@@ -256,3 +256,99 @@ theorem reconnect_elected (st : NS) (peer : String) (id : Nat) (srv : Bool) (n :
     simp [elect, Session.toCand]
 
 end Election
+
+namespace Election
+
+/-- what every reachable `NodeServerState` satisfies: distinct session ids, no `Some(0)` nonce -/
+def NSWf (st : NS) : Prop := (st.sessions.map (·.id)).Nodup ∧ ∀ s ∈ st.sessions, s.conn ≠ some 0
+
+theorem map_id_congr (l : List Session) (f : Session → Session) (hf : ∀ s, (f s).id = s.id) :
+    (l.map f).map (·.id) = l.map (·.id) := by
+  rw [List.map_map]; apply List.map_congr_left; intro s _; exact hf s
+
+theorem NSWf.map (st : NS) (f : Session → Session) (hf : ∀ s, (f s).id = s.id ∧ (f s).conn = s.conn)
+    (h : NSWf st) : NSWf { st with sessions := st.sessions.map f } := by
+  refine ⟨?_, ?_⟩
+  · simp only; rw [map_id_congr _ _ (fun s => (hf s).1)]; exact h.1
+  · intro s hs
+    simp only [List.mem_map] at hs
+    obtain ⟨x, hx, rfl⟩ := hs
+    rw [(hf x).2]; exact h.2 x hx
+
+theorem NSWf.step (st : NS) (op : NSOp) (h : NSWf st)
+    (hfresh : ∀ i srv, op = .opened i srv → ∀ s ∈ st.sessions, s.id ≠ i) : NSWf (nsStep st op) := by
+  cases op with
+  | opened id srv =>
+    obtain ⟨hnd, hw⟩ := h
+    refine ⟨?_, ?_⟩
+    · simp only [nsStep, NS.opened, List.map_append, List.map_cons, List.map_nil]
+      rw [List.nodup_append]
+      refine ⟨hnd, by simp, ?_⟩
+      intro a ha b hb
+      simp only [List.mem_singleton] at hb
+      subst hb
+      obtain ⟨s, hs, rfl⟩ := List.mem_map.mp ha
+      exact hfresh _ srv rfl s hs
+    · intro s hs
+      simp only [nsStep, NS.opened, List.mem_append, List.mem_singleton] at hs
+      rcases hs with hs | rfl
+      · exact hw s hs
+      · simp
+  | register id peer n =>
+    obtain ⟨hnd, hw⟩ := h
+    simp only [nsStep, NS.register]
+    split
+    · exact ⟨hnd, hw⟩
+    · refine ⟨?_, ?_⟩
+      · simp only
+        rw [map_id_congr _ _ (by intro s; split <;> rfl)]; exact hnd
+      · intro s hs
+        simp only [List.mem_map] at hs
+        obtain ⟨x, hx, rfl⟩ := hs
+        split
+        · simp only
+          by_cases hn : n = 0
+          · simp [hn]
+          · simp [hn]
+        · exact hw x hx
+  | commit id =>
+    simp only [nsStep]
+    cases hc : st.commit id with
+    | none => exact h
+    | some r =>
+      obtain ⟨st', b, l⟩ := r
+      simp only
+      unfold NS.commit at hc
+      cases hf : st.find id with
+      | none => rw [hf] at hc; simp at hc
+      | some s =>
+        rw [hf] at hc
+        cases hp : s.peerName with
+        | none => simp [hp] at hc
+        | some peer =>
+          simp only [hp, Option.some.injEq, Prod.mk.injEq] at hc
+          obtain ⟨rfl, _, _⟩ := hc
+          have h1 : NSWf (st.markAuth id) :=
+            NSWf.map st _ (by intro s; split <;> exact ⟨rfl, rfl⟩) h
+          exact NSWf.map (st.markAuth id) _ (by intro s; split <;> exact ⟨rfl, rfl⟩) h1
+  | close id =>
+    obtain ⟨hnd, hw⟩ := h
+    refine ⟨?_, ?_⟩
+    · simp only [nsStep, NS.close]
+      exact ((List.filter_sublist).map _).nodup hnd
+    · intro s hs
+      simp only [nsStep, NS.close, List.mem_filter] at hs
+      exact hw s hs.1
+
+theorem nsRun_wf_aux (ops : List NSOp) : ∀ st, NSWf st → nsFresh st ops → NSWf (ops.foldl nsStep st) := by
+  induction ops with
+  | nil => intro st h _; exact h
+  | cons op rest ih =>
+    intro st h hf
+    simp only [List.foldl_cons]
+    apply ih _ (h.step st op ?_) hf.2
+    intro id srv he
+    subst he
+    exact hf.1
+
+end Election
